@@ -1099,10 +1099,13 @@ func (x *Exec) safetyObl(fr *frame, st *State, kind string, pos token.Pos, goal 
 		return
 	}
 	name := x.siteName(fr, kind, pos)
-	if !x.safety {
+	if goal.B == 1 {
 		return
 	}
-	if goal.B == 1 {
+	if !x.safety {
+		// panic freedom is not claimed for this function, but execution only continues past this
+		// point when the operation did not panic
+		x.vc.assume(st.pc, goal)
 		return
 	}
 	p := x.pos(pos)
@@ -1277,8 +1280,8 @@ func (x *Exec) execInstr(fr *frame, st *State, in ssa.Instruction) error {
 			x.safetyObl(fr, st, "index", i.Pos(), x.inBounds(idx, ln, i.Index.Type()), "index out of range")
 			key, _ := vc.elemKey(t.Elem())
 			off := app(vc.ar.IdxSort(), "s-off", xv.T)
-			abs, _ := vc.ar.Bin("+", off, idx, kInt)
-			x.setReg(st, i, Val{Loc: &Loc{Kind: LElem, Key: key, Ref: app(SInt, "s-ref", xv.T), Idx: vc.bind("ix", abs), RootT: t.Elem()}})
+			abs := vc.elemIndex(off, idx)
+			x.setReg(st, i, Val{Loc: &Loc{Kind: LElem, Key: key, Ref: app(SInt, "s-ref", xv.T), Idx: abs, RootT: t.Elem()}})
 		case *types.Pointer:
 			at := t.Elem().Underlying().(*types.Array)
 			x.safetyObl(fr, st, "index", i.Pos(), x.inBounds(idx, vc.idx(at.Len()), i.Index.Type()), "index out of range")
